@@ -244,8 +244,18 @@ func (c *FnCtx) domDepth(b *ssa.BasicBlock) int {
 
 func (c *FnCtx) loopEnv(li *LoopInfo, phiVal func(*ssa.Phi) Term, st *State, old *State) *Env {
 	env := c.fnEnv(st, old, false)
-	h := li.head
-	env.lookup = func(name string) (TV, bool) {
+	env.lookup = c.localLookup(li.head, -1, phiVal)
+	return env
+}
+
+// localLookup resolves a source-level variable name at a program point: the phis of block h (when
+// phiVal != nil, h is a loop head), otherwise the nearest dominating phi / debug reference; with
+// upto >= 0 the instructions of h before index upto are also considered (a point inside h).
+func (c *FnCtx) localLookup(h *ssa.BasicBlock, upto int, phiVal func(*ssa.Phi) Term) func(name string) (TV, bool) {
+	if phiVal == nil {
+		phiVal = func(p *ssa.Phi) Term { return c.vals[p] }
+	}
+	return func(name string) (TV, bool) {
 		if name == "#i" {
 			for _, ins := range h.Instrs {
 				if phi, ok := ins.(*ssa.Phi); ok && phi.Comment == "rangeindex" {
@@ -280,7 +290,7 @@ func (c *FnCtx) loopEnv(li *LoopInfo, phiVal func(*ssa.Phi) Term, st *State, old
 						}
 					}
 				case *ssa.DebugRef:
-					if b == h {
+					if b == h && (upto < 0 || idx >= upto) {
 						continue
 					}
 					if x.Object() == nil || x.Object().Name() != name {
@@ -317,7 +327,6 @@ func (c *FnCtx) loopEnv(li *LoopInfo, phiVal func(*ssa.Phi) Term, st *State, old
 		}
 		return TV{}, false
 	}
-	return env
 }
 
 // invClause translates a loop invariant; if the changed code no longer has the names the invariant
